@@ -171,6 +171,8 @@ def finish(a, P, results, seed, t0):
         'samples': samples,
         'functions_under_contract': functions,
         'by_backend': by_backend, 'solver_time_s': solver_time,
+        'second_backend_recheck': ({k: sum(1 for o in obligations if o.get('recheck') == k) for k in ('agree', 'unknown', 'DISAGREE')}
+                                   if any(o.get('recheck') for o in obligations) else None),
         'undecided': undecided[:50],
         'refuted': [{'obligation': v['obligation'], 'known': v.get('known'), 'replay_status': (v.get('replay') or {}).get('status')} for v in violations],
         'bounded': [{k: r.get(k) for k in ('unit', 'scope', 'evaluations', 'distinct_nontrivial', 'failures', 'exhaustive', 'wall_s')} for r in bounded],
